@@ -105,14 +105,26 @@ def structure_stats(lines, cov):
         prev = cur
 
 
-def run_profiles(chk, prop, profiles, on, strict_too=True, timeout=900, tag=""):
+def mapdrv():
+    return build("mapdrv", ["mapdrv.cpp"], sessions=16, epoch_time=5)
+
+
+def run_map_profiles(chk, prop, profiles, on, timeout=900, tag="m"):
+    """API-level traces (several storages, long keys, all value shapes) judged by TraceMap."""
+    return run_profiles(chk, prop, profiles, on, strict_too=False, timeout=timeout, tag=tag, kind="map")
+
+
+def run_profiles(chk, prop, profiles, on, strict_too=True, timeout=900, tag="", kind="tree"):
     """profiles: list of argument lists for treedrv.  Judges with ON = on (+ "S" collected separately as divergences)."""
-    exe = treedrv()
+    exe = treedrv() if kind == "tree" else mapdrv()
+    module = "TraceTree" if kind == "tree" else "TraceMap"
     tdir = os.path.join(BUILD, "traces")
     os.makedirs(tdir, exist_ok=True)
     on_all = sorted(set(on) | ({"S"} if strict_too else set()))
-    cfg = write_cfg(os.path.join(BUILD, "cfg", "tt_%s%s.cfg" % (prop, tag)),
-                    constants={"F": 15, "BUGGY_F2": "FALSE", "BUGGY_F3": "FALSE", "LENIENT": "TRUE", "ON": on_set(on_all)}, view="TView")
+    consts = {"LENIENT": "TRUE", "ON": on_set(on_all)}
+    if kind == "tree":
+        consts.update({"F": 15, "BUGGY_F2": "FALSE", "BUGGY_F3": "FALSE"})
+    cfg = write_cfg(os.path.join(BUILD, "cfg", "tt_%s%s.cfg" % (prop, tag)), constants=consts, view="TView")
     jobs = []
     for i, args in enumerate(profiles):
         tr = os.path.join(tdir, "%s%s_%d.ndjson" % (prop, tag, i))
@@ -125,7 +137,7 @@ def run_profiles(chk, prop, profiles, on, strict_too=True, timeout=900, tag=""):
 
     def validate(job):
         i, args, tr, lines = job
-        return job, tlc("TraceTree", cfg, env={"TRACE": tr}, workers=1, timeout=timeout, xmx="3g")
+        return job, tlc(module, cfg, env={"TRACE": tr}, workers=1, timeout=timeout, xmx="3g" if kind == "tree" else "6g")
 
     nviol = 0
     with ThreadPoolExecutor(max_workers=8) as ex:
